@@ -5,8 +5,8 @@ sys.path.insert(0, os.path.dirname(os.path.abspath(__file__)))
 import common
 import solvecheck
 
-THEOREMS = ["Pyvsc.C14.maxProp_keeps", "Pyvsc.C14.capLast_sub", "Pyvsc.C14.bit_candidate", "Pyvsc.C14.target_returned",
-            "Pyvsc.C14.untouched_full"]
+THEOREMS = ["Pyvsc.C14.maxProp_keeps", "Pyvsc.C14.capLast_sub", "Pyvsc.C14.minProp_keeps", "Pyvsc.C14.inProp_keeps",
+            "Pyvsc.C14.bit_candidate", "Pyvsc.C14.target_returned", "Pyvsc.C14.untouched_full"]
 PROFILE = {"samesign": True, "relational": 0.6, "soft": 0.04, "big": 0.05, "maxstmts": 3, "calls": 3}
 RULE = ("as C01, biased to what bound inference reads: top-level relational and in statements of a field against literals, non-random "
         "fields and small non-random expressions, and field-field relations; several calls per object so that old values stay in the "
